@@ -347,6 +347,40 @@ def incompressible_cases(rng, tier):
     return out
 
 
+def periodic_cases(rng, tier):
+    """Pages whose content repeats with a period that sits exactly on the boundaries of the copy forms of the
+    built-in compressors, so that the compressor emits a back-reference at exactly that distance: Snappy copy-1 /
+    copy-2 at 2047 / 2048 / 2049, carquet's Snappy window 32768, Snappy copy-4 and the LZ4 window at 65535 / 65536;
+    total length = period + t with t sweeping 4..80 (the tail of a long match after its 64 / 60-byte pieces takes
+    every length 4..11 / 12..63).  One REQUIRED BYTE_ARRAY column, page_size 1, one value per write_batch call = one
+    page per value (body = 4-byte length + the value: distances inside the value are unchanged).  Small periods
+    1..9 (overlapping copies) ride along.  Codecs SNAPPY, LZ4, LZ4_RAW (GZIP / ZSTD on the mid periods)."""
+    out = []
+    col = fc.Column("p", "BYTE_ARRAY")
+
+    def value(period, total):
+        blk = bytes(rng.getrandbits(8) for _ in range(period))
+        return (blk * (total // period + 1))[:total]
+
+    tails = list(range(4, 81))
+    few = [4, 5, 8, 11, 12, 15, 16, 19, 20, 63, 64, 67, 68, 75, 76, 80]
+    mid, far = (2047, 2048, 2049), (32767, 32768, 32769, 65535, 65536, 65537)
+    for codec in ("SNAPPY", "LZ4", "LZ4_RAW", "GZIP", "ZSTD"):
+        opt = fc.Options(codec=codec, page_size=1)
+        rows = [[value(p, p + t)] for p in (1, 2, 3, 4, 5, 7, 8, 9) for t in (4, 11, 12, 60, 64, 68)]
+        rows += [[value(p, p + t)] for p in mid for t in tails]
+        out.append(history(fc.Schema([col]), opt, [[rows]], name=f"periodic:mid:{codec}"))
+        if codec in ("GZIP", "ZSTD"):
+            continue
+        for p in far:
+            if tier == "quick" and p not in (32768, 65535, 65536):
+                ts = few[:4]
+            else:
+                ts = few if tier == "quick" else tails
+            out.append(history(fc.Schema([col]), opt, [[[[value(p, p + t)] for t in ts]]], name=f"periodic:{p}:{codec}"))
+    return out
+
+
 LOGICAL_COLUMNS = [
     # (physical type, type_length, logical annotation): members with zero / false parameters included - a writer that
     # leaves out "default" values drops REQUIRED fields of DecimalType / IntType / TimeType / TimestampType
@@ -391,7 +425,7 @@ def many_row_groups(n):
 
 
 def gen_cases(tier, rng):
-    cases = targeted_cases(rng, tier) + boundary_cases(rng, tier) + incompressible_cases(rng, tier) + logical_cases(rng, tier)
+    cases = targeted_cases(rng, tier) + boundary_cases(rng, tier) + incompressible_cases(rng, tier) + periodic_cases(rng, tier) + logical_cases(rng, tier)
     if tier == "thorough":
         # RowGroup.ordinal is an i16: from the 32769th row group on it must be left out, not wrapped (fixed fa2774f)
         cases.append(many_row_groups(32770))
